@@ -20,8 +20,10 @@ from mc.models import ini, legacy
 
 ID = "C05"
 LEVEL = "model_checking"
-VERSIONS = {"ci": ["0.0", "0.2", "0.3", "0.4", "0.9", "1.0", "1.1"], "im": ["1.0", "1.1"], "rpms": ["0.3", "1.0", "1.1"],
-            "ti": ["0.0", "0.0r", "0.0a", "0.0b", "0.3", "1.0", "1.1"]}
+# a trailing letter is a dialect of that version: ci '...s' = a non-layered document that carries a stray base_product section
+# (to be ignored); ti '0.0r/a/b' = repodata spelling / absolute roots, '0.3v' = children listed under 'variants', not 'addons'
+VERSIONS = {"ci": ["0.0", "0.2", "0.3", "0.3s", "0.4", "0.9", "1.0", "1.0s", "1.1"], "im": ["1.0", "1.1"], "rpms": ["0.3", "1.0", "1.1"],
+            "ti": ["0.0", "0.0r", "0.0a", "0.0b", "0.3", "0.3v", "1.0", "1.1"]}
 # 0.0r: pre-productmd file whose repository is spelled <dir>/repodata; 0.0a / 0.0b: image, stage2 and checksum paths spelled as
 # absolute paths below the tree root "/os/" resp. "/srv/tree/x86_64/os/"
 REQUIRED_OUTCOMES = (["ci:%s:upgraded" % v for v in VERSIONS["ci"]] + ["im:%s:upgraded" % v for v in VERSIONS["im"]] +
@@ -106,10 +108,16 @@ def spec_of(fmt, seed, edits):
 def make_ci(spec, version):
     obj = CI.build(spec)
     doc = json.loads(obj.dumps())
+    stray = version.endswith("s")
+    version = version.rstrip("s")
     conv = legacy.composeinfo(doc, version)
     if conv is None:
         return None
     old, lost = conv
+    if stray:
+        if "base_product" in old["payload"]:
+            return None                               # (only a document of a non-layered release can carry a STRAY section)
+        old["payload"]["base_product"] = {"name": "Stray Base", "short": "stray", "version": "9"}
     if legacy.vt(version) < (0, 3) and spec["compose"]["id"] != "auto":
         return None                                   # the triple must be derivable from the id
     exp = CI.expected_observation(spec, obj.compose.id)
@@ -143,7 +151,13 @@ def make_ti(spec, version):
     if version in ("0.0", "0.0r", "0.0a", "0.0b"):
         return make_ti_00(spec, repodata=version == "0.0r", root={"0.0a": "/os/", "0.0b": "/srv/tree/x86_64/os/"}.get(version))
     text = TI.dumps(TI.build(spec))
+    children_as_variants = version == "0.3v"
+    version = version.rstrip("v")
     old, _ = legacy.treeinfo(ini.parse(text), version)
+    if children_as_variants:
+        if not any(k == "addons" for n, opts in old if n.startswith("variant-") for k, _ in opts):
+            return None                               # (no variant with children: same document as plain 0.3)
+        old = [(n, [("variants" if k == "addons" and n.startswith("variant-") else k, val) for k, val in opts]) for n, opts in old]
     if legacy.vt(version) <= (0, 3) and spec["tree"]["arch"] == "src":
         # a 0.3 source tree keeps its source packages/repository under the plain keys (the mapping is read off the 0.3 reader:
         # it is not documented anywhere else)
